@@ -30,6 +30,48 @@ type c05Case struct {
 	Corpus corpusSel `json:"corpus"`
 	X      recipe    `json:"x"`
 	Ts     []xform   `json:"ts"`
+	// PreSplit: before anything else, words of X at these positions are hyphenated across a line break (also the last
+	// word of a line, whose second half then stands directly before a line break). The result is the base text; the
+	// transformations are applied to it (lines ending in a hyphen stay exempt).
+	PreSplit []int `json:"presplit,omitempty"`
+}
+
+var c05SplitWord = regexp.MustCompile(`^([A-Za-z]{2,})([A-Za-z]{2,}[.,;:]?)$`)
+
+func preSplit(ls []tline, positions []int) []tline {
+	for _, p := range positions {
+		if len(ls) == 0 {
+			break
+		}
+		i := ((p % len(ls)) + len(ls)) % len(ls)
+		f := strings.Fields(ls[i].s)
+		if len(f) == 0 || ls[i].eol == "" || strings.Contains(strings.ToLower(ls[i].s), "copyright") {
+			continue
+		}
+		k := len(f) - 1
+		if p%3 != 0 {
+			k = (p / 3) % len(f)
+		}
+		w := f[k]
+		if len(w) < 5 || !c05SplitWord.MatchString(w) {
+			continue
+		}
+		cut := 2 + p%(len(w)-3)
+		if cut >= len(w)-1 {
+			cut = len(w) - 2
+		}
+		first := strings.Join(append(append([]string{}, f[:k]...), w[:cut]+"-"), " ")
+		second := strings.Join(append([]string{w[cut:]}, f[k+1:]...), " ")
+		nl := append([]tline{}, ls[:i]...)
+		nl = append(nl, tline{s: first, eol: "\n", orig: ls[i].orig}, tline{s: second, eol: ls[i].eol, orig: -1})
+		nl = append(nl, ls[i+1:]...)
+		ls = nl
+	}
+	// renumber: the pre-split text is the base text
+	for i := range ls {
+		ls[i].orig = i
+	}
+	return ls
 }
 
 var c05Kinds = []string{"upper", "lower", "altcase", "tabs", "multiblank", "trailing", "indent", "crlf", "blankline", "decorate", "dashes", "quotes"}
@@ -58,6 +100,9 @@ func c05Gen(t *rapid.T) interface{} {
 		c.Corpus = smallCorpusAround(t, c.X.docs())
 	}
 	c.Ts = genXforms(t, c05Kinds, 4)
+	if lib.IntN(t, 0, 3, "presplit") == 0 {
+		c.PreSplit = lib.Ints(t, 1, 6, 0, 6000, "presplitPos")
+	}
 	return c
 }
 
@@ -107,7 +152,20 @@ func isDashRune(r rune) bool {
 // everything up to and including the next non-blank line: the property exempts them because a
 // hyphen before a line break joins two word halves.
 func frozenLines(ls []tline) []bool {
+	hard, soft := hyphenZones(ls)
 	fr := make([]bool, len(ls))
+	for i := range fr {
+		fr[i] = hard[i] || soft[i]
+	}
+	return fr
+}
+
+// hyphenZones: hard = lines that end in a dash (exempt as a whole, the statement's wording); soft = the lines after
+// it up to and including the next non-blank line (the continuation). On a continuation line only changes in front
+// of its first word are excluded (decoration, a blank line inserted before it: they would end up inside the joined
+// word); re-casing, blanks, tabs and line terminators are applied there like anywhere else.
+func hyphenZones(ls []tline) (hard, soft []bool) {
+	hard, soft = make([]bool, len(ls)), make([]bool, len(ls))
 	for i, l := range ls {
 		t := strings.TrimRightFunc(l.s, unicode.IsSpace)
 		if t == "" {
@@ -117,15 +175,15 @@ func frozenLines(ls []tline) []bool {
 		if !isDashRune(rs[len(rs)-1]) {
 			continue
 		}
-		fr[i] = true
+		hard[i] = true
 		for j := i + 1; j < len(ls); j++ {
-			fr[j] = true
+			soft[j] = true
 			if strings.TrimSpace(ls[j].s) != "" {
 				break
 			}
 		}
 	}
-	return fr
+	return hard, soft
 }
 
 func recase(s string, mode string) string {
@@ -161,6 +219,7 @@ func applyXforms(ls []tline, ts []xform) ([]tline, map[string]int, int) {
 			break
 		}
 		fr := frozenLines(ls)
+		hard, _ := hyphenZones(ls)
 		sel := make([]bool, len(ls))
 		if x.All {
 			for i := range sel {
@@ -192,7 +251,7 @@ func applyXforms(ls []tline, ts []xform) ([]tline, map[string]int, int) {
 			if !sel[i] {
 				continue
 			}
-			if fr[i] {
+			if hard[i] || (fr[i] && (x.Kind == "decorate" || x.Kind == "indent" && strings.TrimSpace(ls[i].s) == "")) {
 				frozenSkips++
 				continue
 			}
@@ -304,6 +363,9 @@ func c05Check(ci interface{}) lib.Outcome {
 	}
 	cl := classifierFor(c.Thr, c.Corpus)
 	x := c.X.build(cl)
+	if len(c.PreSplit) > 0 {
+		x = joinLines(preSplit(splitLines(x), c.PreSplit))
+	}
 	ls := splitLines(x)
 	norig := len(ls)
 	ls, applied, frozenSkips := applyXforms(ls, c.Ts)
@@ -321,6 +383,9 @@ func c05Check(ci interface{}) lib.Outcome {
 	res := cl.Match(x)
 	nlic := len(licensesOnly(rawList(res)))
 	classes := []string{fmt.Sprintf("composition-of-%d", len(kinds))}
+	if len(c.PreSplit) > 0 {
+		classes = append(classes, "base-text-with-hyphenated-words")
+	}
 	for _, k := range kinds {
 		classes = append(classes, "t-"+k)
 	}
